@@ -25,6 +25,15 @@ Decided (DESIGN.md section 5, C09):
                                      non-null, a member initialised from an integral parameter unknown (may be 0) -- the first read()
                                      cannot return without having called the pull function: the object never starts out "finished"
                                      (with X2: an empty chunk is returned only after a stream end was observed)
+    P1-stream-init-end-paired        init / end typestate of the z_stream / bz_stream member: a BZ2_bzDecompressInit / inflateInit2 that
+                                     read() applies to the (already initialised) member is preceded on every path by the matching
+                                     *End, or is the in-place inflateReset; the constructor's init is released by close() on all paths
+    P2-inflate-flush-permits-partial-progress   inflate() in a read() override (bounded window refilled call after call) gets a flush
+                                     value that permits partial progress (frozen zlib table: Z_NO_FLUSH, Z_SYNC_FLUSH, Z_BLOCK, Z_TREES;
+                                     Z_FINISH needs a window sized for the whole stream)
+    Z1-no-shared-mutable-state       no body reachable from a Compressor / Decompressor class, their helper classes, the read thread or
+                                     the CompressionFactory declares a non-const function-local static or writes a non-const
+                                     namespace-scope / static-member variable (whitelist c09_util.SHARED_STATE_OK, one reason each)
     S2-no-pull-again-over-data       under "more" read() does not call the pull function again while the chunk holds data (count >= 1 by
                                      convention) / without having looked at the count (stream functions): the next call would overwrite it
     O1-offset-is-compressed-position every Decompressor::set_offset() in a read() override is fed from a position function of the
@@ -81,7 +90,7 @@ from ..c08_util import in_io_layer
 from ..c09_util import (DECOMP, RTM, OPEN_CLOSE, dedupe, decompressor_classes, read_path_functions, method_of, pull_calls,
                         call_name, assume, walk_from, returned_local, stream_field, count_resizes, count_test_elements,
                         unconsumed_zero_guard, guard_signature, end_declarations, string_call_on, STRING_MUTATORS, addr_carrier,
-                        field_assigned_from, data_sources, handle_arg_is, helper_reaches, normalized, state_env, input_test_elements, initial_state_envs, fresh_string_env, seed_env, cumulative_resizes, EOF_PROBES, LOCAL_IGNORABLE, OFFSET_COMPRESSED, OFFSET_UNCOMPRESSED, file_has_more_env, resolve_alias, no_output_env, has_output_env, on_normal_path, is_stream_member, catch_all_handler, nodes_in_handler, must_pass, is_exit, scn, reaches,
+                        field_assigned_from, data_sources, handle_arg_is, helper_reaches, normalized, state_env, input_test_elements, ZLIB_FLUSH, STREAM_INIT_END, STREAM_RESET, SHARED_STATE_OK, local_statics, written_globals, initial_state_envs, fresh_string_env, seed_env, cumulative_resizes, EOF_PROBES, LOCAL_IGNORABLE, OFFSET_COMPRESSED, OFFSET_UNCOMPRESSED, file_has_more_env, resolve_alias, no_output_env, has_output_env, on_normal_path, is_stream_member, catch_all_handler, nodes_in_handler, must_pass, is_exit, scn, reaches,
                         assigned_from)
 from ..flow import path_search, describe_path
 
@@ -540,6 +549,109 @@ def _unused_rules(fb, R, fn, call, pull, o_end, reinits):
                     'unused pointer and count flow into arguments 5 and 6')
 
 
+# ------------------------------------------------------------------------------------------------ stream state pairing, flush, shared state
+
+def stream_rules(fb, R):
+    """P1: allocate / release pairing on the z_stream / bz_stream member.  P2: the flush value handed to inflate()."""
+    for rec in decompressor_classes(fb):
+        fns_cls = dedupe([g for g in fb.functions if g.cls == rec.q])
+        inits_cls = [(g, n) for g in fns_cls for n in g.all_nodes() if E.is_extern_c(n) and n['q'] in STREAM_INIT_END]
+        for fn in method_of(fb, rec.q, 'read'):
+            fn = normalized(fb, fn)
+            for (call, pull) in pull_calls(fb, fn):
+                sq = stream_field(fn, call, pull)
+                if sq is None:
+                    continue
+                on_stream = lambda n: any(addr_carrier(fn, a) == ('field', sq) for a in (n.get('args') or []) if a is not None)
+                name = call_name(call)
+                # ---- P2 flush
+                if name == 'inflate':
+                    args = call.get('args', [])
+                    v = E.const_of(fn, args[1]) if len(args) > 1 and args[1] is not None else None
+                    key = '%s#inflate:flush-permits-partial-progress' % fn.q
+                    if v is None or v not in ZLIB_FLUSH:
+                        R.broken('%s (%s): flush argument of inflate() is not a constant of the zlib table' % (fn.q, fn.loc(call['id'])))
+                    else:
+                        fname, partial, why = ZLIB_FLUSH[v]
+                        R.check(partial is True, 'P2-inflate-flush-permits-partial-progress', key, fn.loc(call['id']),
+                                'read() hands inflate() a bounded output window that is refilled call after call, so the flush value must permit '
+                                'partial progress (Z_NO_FLUSH, Z_SYNC_FLUSH, Z_BLOCK, Z_TREES); it is %s: %s -- every input that needs a second '
+                                'output window fails' % (fname, why), fname)
+                # ---- P1 (a) re-initialisation inside read()
+                reinit = [n for n in fn.all_nodes() if E.is_extern_c(n) and on_stream(n) and (n['q'] in STREAM_INIT_END or n['q'] in STREAM_RESET)]
+                for r in reinit:
+                    key = '%s#%s:previous-stream-state-released' % (fn.q, r['q'])
+                    if r['q'] in STREAM_RESET:
+                        R.ok('P1-stream-init-end-paired', key, fn.loc(r['id']), 'in-place reset: keeps the allocated state')
+                        continue
+                    ends = {n['id'] for n in fn.all_nodes() if E.is_extern_c(n) and n['q'] == STREAM_INIT_END[r['q']] and on_stream(n)}
+                    others = {n['id'] for n in reinit if n['q'] in STREAM_INIT_END}
+                    w = path_search(fn, fn.entry, lambda e: e == r['id'], lambda e: e in ends, from_block_start=True)
+                    if w is None:
+                        for src in others:      # ... and again after every earlier (re-)initialisation
+                            w = w or path_search(fn, src, lambda e: e == r['id'], lambda e: e in ends)
+                    R.check(w is None, 'P1-stream-init-end-paired', key, fn.loc(r['id']),
+                            '%s on the already initialised stream member is reached on a path without %s: the init function allocates a fresh '
+                            'decoder state (libbz2: ~3.7 MB) and the old one is lost -- a long multi-stream input runs out of memory and a '
+                            'valid file fails: %s' % (r['q'], STREAM_INIT_END[r['q']], describe_path(fn, w)),
+                            'every path to the re-initialisation passes %s' % STREAM_INIT_END[r['q']])
+        # ---- P1 (b) the constructor's allocation is released by close()
+        for (g, n) in inits_cls:
+            if g.kind != 'ctor':
+                continue
+            sqs = [addr_carrier(g, a) for a in (n.get('args') or []) if a is not None]
+            sqs = [c[1] for c in sqs if c is not None and c[0] == 'field']
+            if not sqs:
+                continue
+            endname = STREAM_INIT_END[n['q']]
+            for cl in method_of(fb, rec.q, 'close'):
+                cl = normalized(fb, cl)
+                ends = [e['id'] for e in cl.all_nodes() if E.is_extern_c(e) and e['q'] == endname
+                        and any(addr_carrier(cl, a) == ('field', sqs[0]) for a in (e.get('args') or []) if a is not None)]
+                w = must_pass(cl, cl.entry, ends)
+                R.check(bool(ends) and w is None, 'P1-stream-init-end-paired', '%s#releases-%s-state' % (cl.q, n['q']), cl.site,
+                        'the decoder state allocated by %s in the constructor is not released by %s on every path of close() (the '
+                        'destructor relies on close())' % (n['q'], endname), endname)
+
+
+def shared_state_rules(fb, R):
+    """Z1: no function of a Compressor / Decompressor class, their helper classes, the read thread and the factory declares a
+    function-local static of non-const type or writes a namespace-scope / static-member variable: two files are read (written)
+    concurrently through separate objects, nothing but the objects themselves may hold their data."""
+    rule = 'Z1-no-shared-mutable-state'
+    classes = {DECOMP, RTM, NS + 'Compressor', NS + 'CompressionFactory'} | {r.q for r in decompressor_classes(fb)} \
+        | {r.q for r in fb.derived_from(NS + 'Compressor')}
+    for c in list(classes):
+        for r in fb.records_named(c):
+            for f in r.fields:
+                if f.get('rec', '').startswith('osmium::io::'):
+                    classes.add(f['rec'])
+    for c in sorted(classes):
+        roots = dedupe([f for f in fb.functions if f.cls == c])
+        if not roots:
+            continue
+        bad = None
+        nfn = 0
+        for g in dedupe(E.closure_fns(fb, roots, depth=6)):
+            if not g.q.startswith('osmium::') or not in_io_layer(g):
+                continue
+            nfn += 1
+            for (n, v) in local_statics(g):
+                if (g.q, v['name']) not in SHARED_STATE_OK:
+                    bad = bad or (g, n, 'function-local `static %s %s` in %s' % (v['t'], v['name'], g.q))
+            for (n, how) in written_globals(fb, g):
+                if (g.q, n.get('q')) not in SHARED_STATE_OK:
+                    bad = bad or (g, n, 'variable %s (%s) in %s' % (n.get('q'), how, g.q))
+        if bad:
+            g, n, what = bad
+            R.bad(rule, '%s#shared-state' % c, g.loc(n['id']),
+                  'code of %s reaches mutable state that all its objects share: %s. Two files are decompressed / compressed concurrently '
+                  'by separate objects (one read thread each), so both work in the same memory: corrupt data or spurious "incorrect data '
+                  'check" errors on valid files, depending on the schedule' % (c, what))
+        else:
+            R.ok(rule, '%s#shared-state' % c, roots[0].site, '%d bodies' % nfn)
+
+
 # ------------------------------------------------------------------------------------------------ offsets
 
 def offset_rules(fb, R):
@@ -717,6 +829,8 @@ def read_thread_rules(fb, R):
 def all_rules(fb, R):
     errdisc_rules(fb, R)
     read_rules(fb, R)
+    stream_rules(fb, R)
+    shared_state_rules(fb, R)
     offset_rules(fb, R)
     close_rules(fb, R)
     read_thread_rules(fb, R)
@@ -738,6 +852,9 @@ def run(ctx):
     R.expect('N2-retry-only-with-input-left', 2)     # inflate, BZ2_bzDecompress
     R.expect('S2-no-pull-again-over-data', 5)
     R.expect('G1-no-eof-before-first-pull', 3)       # BZ2_bzRead, inflate, BZ2_bzDecompress
+    R.expect('P1-stream-init-end-paired', 4)         # inflateReset + BZ2_bzDecompressInit in read(); the two close()
+    R.expect('P2-inflate-flush-permits-partial-progress', 1)
+    R.expect('Z1-no-shared-mutable-state', 10)       # 6 decompressors, read thread, file_wrapper, factory, base classes, compressors
     R.expect('O1-offset-is-compressed-position', 2)  # 3 today (Gzip, Bzip2, No); a decompressor may stop reporting offsets
     R.expect('X1-stream-end-continues', 3)           # BZ2_bzRead inflate BZ2_bzDecompress
     R.expect('X2-end-only-when-input-consumed', 3)   # one declaration per stream-end-aware read()
@@ -760,6 +877,8 @@ def _selftest(fb, R):
     fns = [f for f in fb.functions if f.q.startswith('osmium::')]
     errdisc_rules(fb, R)
     read_rules(fb, R)
+    stream_rules(fb, R)
+    shared_state_rules(fb, R)
     offset_rules(fb, R)
     close_rules(fb, R)
     read_thread_rules(fb, R)
@@ -800,6 +919,7 @@ def _selftest(fb, R):
 SELFTESTS = [(r, 'c09_decomp.cpp', _selftest) for r in (
     'E1-read-error-reaches-throw', 'E1-nothrow-explicit-discard', 'S1-chunk-length-is-library-count', 'N1-no-empty-chunk-while-more',
     'N2-retry-only-with-input-left', 'S2-no-pull-again-over-data', 'O1-offset-is-compressed-position', 'G1-no-eof-before-first-pull',
+    'P1-stream-init-end-paired', 'P2-inflate-flush-permits-partial-progress', 'Z1-no-shared-mutable-state',
     'X1-stream-end-continues', 'X2-end-only-when-input-consumed', 'X3-unused-copied-before-close', 'X4-reopen-receives-unused',
     'X5-probed-byte-pushed-back',
     'K1-close-closes-library-handle', 'K2-handle-reset-before-throw', 'T1-read-thread-closes-in-try', 'T2-every-chunk-forwarded')]
